@@ -196,7 +196,8 @@ def handler(c):
     for nm, ms in d.get("moves", {}).items():
         mv = ms.get("kwargs", {}).get("move", {})
         cr = ms.get("kwargs", {}).get("criteria", {})
-        ser[nm] = {"move": mv if isinstance(mv, dict) and mv.get("name") == "UserMove" else str(mv.get("name")), "criteria": cr.get("name")}
+        ser[nm] = {"move": mv if isinstance(mv, dict) and mv.get("name") == "UserMove" else str(mv.get("name")), "criteria": cr.get("name"),
+                   "criteria_oid": cr.get("kwargs", {}).get("oid") if isinstance(cr, dict) else None, "probability": ms.get("kwargs", {}).get("probability")}
     return {"log": LOG[:], "trials": trials, "snaps": snaps, "to_dict_mark": mark, "serialized": ser, "table": table}
 
 
